@@ -42,7 +42,10 @@ Kinds ==
                   \cup (IF Used \/ ~Early \/ 0 \in SidsUsed THEN CKinds \cap {"WU"} ELSE {})
                   \cup (IF CKinds \cap {"PRIORITY", "PINGACK", "UNKNOWN"} # {} THEN {"NOEFF"} ELSE {})
                   \cup (IF CKinds \cap {"CONT", "PUSH"} # {} /\ ~Early THEN {"CONNERR"} ELSE {})
-                  \cup (IF Idle # {} THEN {"h-" \o o : o \in HOps \cap {"read", "ret"}} ELSE {})
+                  \cup (IF Idle # {} /\ "ret" \in HOps THEN {"h-ret"} ELSE {})
+                  \cup (IF \E s \in Idle : ~bclosed[s] /\ "read" \in HOps THEN {"h-read"} ELSE {})
+                  \cup (IF \E s \in Idle : InMap(s) /\ bst[s] = "open" /\ ~bclosed[s] /\ "closebody" \in HOps
+                        THEN {"h-closebody"} ELSE {})
                   \cup (IF \E s \in Idle : InMap(s) /\ "write" \in HOps THEN {"h-write"} ELSE {})
                   \cup (IF \E s \in Idle : InMap(s) /\ ~hsent[s] /\ "hdr" \in HOps THEN {"h-hdr"} ELSE {})
            no == (IF nhdrs >= MaxHdrs THEN {"HEADERS", "NEH"} ELSE {})
@@ -51,7 +54,7 @@ Kinds ==
 Choose == /\ ~fin /\ StimAny /\ want = ""
           /\ want' \in Kinds
           /\ salt' \in 1..(IF want' \in Heavy THEN 3 ELSE 1)
-          /\ UNCHANGED <<p, st, maxId, inC, inS, buf, bst, clM, bodyM, outC, outS, iwsM, mfsM, ctl, sq,
+          /\ UNCHANGED <<p, st, maxId, inC, inS, buf, bst, bclosed, clM, bodyM, outC, outS, iwsM, mfsM, ctl, sq,
                          needAck, ga, needGA, conn, hs, hk, hprog, hsent, hret, sent, mineM, tag, turn,
                          nstep, ndata, nhdrs, last, holdM, h, fin>>
 
